@@ -616,6 +616,36 @@ def check_ccg(ctx):
     shape.match(ctx, "R18.4", CCG + ".tree2diagram:dom", domv, "Ty().tensor(*[child.cod for child in children])", {}, mod=CCG, node=t2, sig="dom")
 
 
+def check_box_guards(ctx):
+    """R18.5: each biclosed rule box only accepts the slash types whose parts its dom / cod formula reads (grammaticality of a derivation step)"""
+    from ..cfg import CFG as FlowGraph
+    m = ctx.model
+    BIC_ = "discopy.biclosed"
+    want = {"FA": {0: "Over"}, "BA": {0: "Under"}, "FC": {0: "Over", 1: "Over"}, "BC": {0: "Under", 1: "Under"}, "FX": {0: "Over", 1: "Under"}, "BX": {0: "Over", 1: "Under"}}
+    agree = {"FC": ("right", "left"), "BC": ("right", "left"), "FX": ("right", "right"), "BX": ("left", "left")}
+    for cname, table in want.items():
+        fn = m.func("%s.%s.__init__" % (BIC_, cname))
+        ctx.analysed("%s.%s.__init__" % (BIC_, cname))
+        params = [a.arg for a in fn.args.args[1:]]
+        sup = next((c for c in ast.walk(fn) if isinstance(c, ast.Call) and ast.unparse(c.func) == "super().__init__"), None)
+        ctx.need(sup is not None, "biclosed.%s.__init__ does not call super().__init__" % cname)
+        g = FlowGraph(fn)
+        guards = [(st.test, how) for st, lab, how in g.raising_guards_before(sup) if lab == "T"]
+        for k, cls in table.items():
+            p = params[k]
+            hit = [t for t, how in guards if "TypeError" in how and isinstance(t, ast.UnaryOp) and isinstance(t.op, ast.Not) and isinstance(t.operand, ast.Call)
+                   and ast.unparse(t.operand.func) == "isinstance" and ast.unparse(t.operand.args[0]) == p]
+            ok = len(hit) == 1 and ast.unparse(hit[0].operand.args[1]) == cls
+            ctx.ob("R18.5", "%s.%s.__init__:%s" % (BIC_, cname, p), ok, found=[ast.unparse(t) for t in hit] or "no type guard on `%s`" % p, required="`%s` must be an %s type (TypeError otherwise): the box reads its %s parts" % (p, cls, cls),
+                   mod=BIC_, node=fn, sig="guard:%s:%s" % (cname, p))
+        if cname in agree:
+            a, b = agree[cname]
+            spec = "%s.%s != %s.%s" % (params[0], a, params[1], b)
+            ok = any(shape.key(t) == shape.key(shape.parse(spec)) and "TypeError" in how for t, how in guards)
+            ctx.ob("R18.5", "%s.%s.__init__:shared-type" % (BIC_, cname), ok, found=[ast.unparse(t) for t, _ in guards], required="the two slash types must share the middle type: `%s` raises TypeError" % spec, mod=BIC_, node=fn,
+                   sig="guard:%s:shared" % cname)
+
+
 def check(ctx):
     ctx.rule("R18.1", "type preservation: the rigid method called by biclosed.Functor with the arguments it routes has dom/cod equal to the image of the biclosed box's dom/cod, in every emptiness case")
     ctx.rule("R18.2", "eager_parse: words first in order; cups only between adjacent adjoints; the layer's slices partition the scan; returns only under cod == target")
@@ -625,6 +655,9 @@ def check(ctx):
     check_eager_parse(ctx)
     check_cfg(ctx)
     check_ccg(ctx)
+    ctx.rule("R18.5", "the biclosed rule boxes refuse operands that are not slash types of the required direction or do not share their middle type")
+    check_box_guards(ctx)
+    ctx.floor("R18.5", 14)
     ctx.floor("R18.1", 20)
     ctx.floor("R18.2", 7)
     ctx.floor("R18.3", 6)
